@@ -78,7 +78,10 @@ def model (line : String) : String :=
       | some m => s!"ok:{m.length}:{digest m}"
       | none => "err"
     let ms := if r.mods.isEmpty then "-" else String.ofList r.mods
-    s!"agree={tf r.agree} ref={tf r.ref} ct={r.ctLen}:{showBytes r.ctHead} dec={dec} wrong={r.wrong} mods={ms} match={tf r.matchC}{tf r.matchA}"
+    let back := match r.back with
+      | some m => s!"ok:{m.length}:{digest m}"
+      | none => "err"
+    s!"agree={tf r.agree} ref={tf r.ref} ct={r.ctLen}:{showBytes r.ctHead} dec={dec} wrong={r.wrong} mods={ms} back={back} match={tf r.matchC}{tf r.matchA}{tf r.matchBC}{tf r.matchCA}"
 
 def field (toks : List String) (name : String) : Option String :=
   toks.findSome? fun t => if t.startsWith (name ++ "=") then some ((t.drop (name.length + 1)).toString) else none
@@ -89,19 +92,23 @@ def monitor (op obs : String) : String :=
   | some (cs, mods) =>
     let toks := obs.splitOn " "
     match field toks "agree", field toks "ref", field toks "ct", field toks "dec", field toks "wrong",
-          field toks "mods", field toks "match" with
-    | some ag, some rf, some ct, some dec, some wr, some ms, some mt =>
+          field toks "mods", field toks "match", field toks "back" with
+    | some ag, some rf, some ct, some dec, some wr, some ms, some mt, some bk =>
       let ctLen := ((ct.splitOn ":").head?.bind String.toNat?).getD 0
       let decOk := dec == s!"ok:{cs.pt.length}:{digest cs.pt}"
       let o : ImplObs := {
         agree := ag == "t", ref := rf == "t", ctLen := ctLen, decOk := decOk,
         wrong := wr.toList.headD '?', mods := if ms = "-" then [] else ms.toList,
-        matchC := mt.toList.head? == some 't', matchA := mt.toList.getLast? == some 't' }
+        matchC := mt.toList[0]? == some 't', matchA := mt.toList[1]? == some 't',
+        backOk := bk == s!"ok:{cs.pt.length}:{digest cs.pt}",
+        matchBC := mt.toList[2]? == some 't', matchCA := mt.toList[3]? == some 't' }
       if holds N cs mods o then "ok"
       else if !(o.agree && o.ref) then "FAIL keys-disagree"
-      else if !decOk then "FAIL decrypt-of-encrypt-is-not-the-plaintext"
-      else if !(o.matchC == decide (cs.c % N = cs.a % N)) || !o.matchA then "FAIL key-matching-wrong"
+      else if !decOk || !o.backOk then "FAIL decrypt-of-encrypt-is-not-the-plaintext"
+      else if !(o.matchC == decide (cs.c % N = cs.a % N)) || !o.matchA
+           || !(o.matchBC == decide (cs.c % N = cs.b % N)) || !(o.matchCA == decide (cs.a % N = cs.c % N))
+        then "FAIL key-matching-wrong"
       else "FAIL tampered-or-foreign-ciphertext-handling"
-    | _, _, _, _, _, _, _ => "FAIL unparsable-observation"
+    | _, _, _, _, _, _, _, _ => "FAIL unparsable-observation"
 
 def main (args : List String) : IO UInt32 := driverMain model monitor args
